@@ -17,15 +17,17 @@ CONSTANTS
   Weak_VoteSetBitsIgnored = FALSE
   Weak_NewValidBlockIgnored = FALSE
   Weak_InitMarksPartsHad = FALSE
-  Weak_ClaimAppliedInReceive = FALSE
+  Weak_ClaimAppliedInReceive = TRUE
   Weak_VoteMarkedBeforeRoundCheck = FALSE
   Code_POLShadowedByCatchupRound = TRUE
   AllowedGaps <- AllGaps
-  NodeMenu <- FullNode
-  PeerMenu <- FullPeer
+  NodeMenu <- NVNode
+  PeerMenu <- NVPeer
   Modes = {"fresh", "live"}
   EnvBudget = 1
-INIT CaseInit
-NEXT CaseNext
+INIT GInit
+NEXT GNext
+INVARIANTS PeerStateSound GossipComplete
+PROPERTY StepProps
+VIEW GView
 CHECK_DEADLOCK FALSE
-VIEW CaseView
